@@ -53,6 +53,15 @@ M = [
     ("c19_so2_bounds_swallowed", ["C19"], PY + "base/so2_state_space.rs", "Err(e) => Err(PyValueError::new_err(e.to_string())),", "Err(_) => Ok(Self(Arc::new(Mutex::new(OxmplSO2StateSpace::new(None).unwrap())))),"),
     ("c20_validity_error_is_true", ["C20"], PY + "base/state_validity_checker.rs", "                    e.print(py);\n                    false\n", "                    e.print(py);\n                    true\n"),
     ("c20_goal_error_is_true", ["C20"], PY + "base/goal.rs", "                .unwrap_or(false)", "                .unwrap_or(true)"),
+    # the LAST of the six per-state-type glue functions (compound states) fails open
+    ("c20_last_glue_error_is_true", ["C20"], PY + "base/state_validity_checker.rs", ("last", "                    e.print(py);\n                    false\n"), "                    e.print(py);\n                    true\n"),
+    # one-entry memo in the RealVector glue: key written before the call, verdict only on Ok, so a
+    # failing query repeated immediately is answered from the previous query's (stale) verdict
+    ("c20_rv_validity_memo", ["C20"], PY + "base/state_validity_checker.rs",
+     [("impl StateValidityChecker<OxmplRealVectorState> for PyStateValidityChecker {\n    fn is_valid(&self, state: &OxmplRealVectorState) -> bool {\n",
+       "thread_local! {\n    static LAST_QUERY: std::cell::RefCell<(usize, Vec<f64>, bool)> = const { std::cell::RefCell::new((0, Vec::new(), false)) };\n}\n\nimpl StateValidityChecker<OxmplRealVectorState> for PyStateValidityChecker {\n    fn is_valid(&self, state: &OxmplRealVectorState) -> bool {\n        // Repeated checks of the same point do not need to re-enter Python.\n        let key = self.callback.as_ptr() as usize;\n        let hit = LAST_QUERY.with(|l| {\n            let l = l.borrow();\n            if l.0 == key && l.1 == state.values { Some(l.2) } else { None }\n        });\n        if let Some(v) = hit {\n            return v;\n        }\n        LAST_QUERY.with(|l| {\n            let mut l = l.borrow_mut();\n            l.0 = key;\n            l.1 = state.values.clone();\n        });\n"),
+      ("                Ok(is_valid) => is_valid,\n", "                Ok(is_valid) => {\n                    LAST_QUERY.with(|l| l.borrow_mut().2 = is_valid);\n                    is_valid\n                }\n")],
+     None),
 ]
 
 
@@ -62,12 +71,26 @@ def main():
     ok = True
     for name, props, rel, old, new in M:
         src = open(os.path.join(REPO, rel)).read()
-        n = src.count(old)
-        if n < 1:
+        # `old` is a string (first occurrence), ("last", string) or a list of (old, new) pairs
+        pairs = old if isinstance(old, list) else [(old, new)]
+        dst = src
+        missing = False
+        for o, n_ in pairs:
+            last = isinstance(o, tuple)
+            if last:
+                o = o[1]
+            if dst.count(o) < 1:
+                missing = True
+                break
+            if last:
+                k = dst.rindex(o)
+                dst = dst[:k] + n_ + dst[k + len(o):]
+            else:
+                dst = dst.replace(o, n_, 1)
+        if missing:
             print(f"SKIP {name}: pattern not found in {rel}")
             ok = False
             continue
-        dst = src.replace(old, new, 1)
         diff = difflib.unified_diff(src.splitlines(True), dst.splitlines(True), "a/" + rel, "b/" + rel)
         with open(os.path.join(OUT, name + ".patch"), "w") as f:
             f.writelines(diff)
